@@ -43,9 +43,10 @@ PROPS = {
         "rule": "One case = a layout-building history followed by reorganisations (level/full compaction, out-of-order merge); dumps before/after every "
                 "reorganisation are compared with the model, and every journal boundary class inside a reorganisation (intent log, renames, deletes, log "
                 "removal) is crashed, recovered (nested crashes in the recovery pass) and compared. evaluations = live runs + crash states.",
-        "eval_extra": ["crash_states"], "probes": ["out-of-order file present", "compacted file (level>0) present"],
+        "eval_extra": ["crash_states"], "probes": ["out-of-order file present", "compacted file (level>0) present", "crash image holds a compaction intent log",
+                                                   "compaction log recovered: files renamed into place at start-up"],
         "assumptions": _CRASH_ASSUME,
-        "quick": {"runs": 120, "budget_s": 170, "workers": 14},
+        "quick": {"runs": 700, "budget_s": 150, "workers": 14},
         "thorough": {"runs": 3000, "budget_s": 2400, "workers": 16},
     },
 }
